@@ -17,7 +17,7 @@ open Yaclib Yaclib.Pipeline Yaclib.Extracted
 
 variable (cfg : Cfg) (evs : List Event) (p : Prog) (h : Handle)
 
-/-- **allocs_le_steps**: in every reachable state — any program (nested to any depth, D10 or not), any callback
+/-- **allocs_le_steps**: in every reachable state — any program (nested to any depth), any callback
     signature, any executor / rejection point, any event order, unwrapping included — the number of heap blocks allocated so
     far is at most the number of pipeline steps written so far (source, Then*/Detach* steps, and the sources and steps of the
     inner pipelines); even more: what has been allocated plus what the functors not yet invoked can still allocate stays
